@@ -17,17 +17,17 @@ import (
 // declares the callee a sanitizer or a stopper.
 type Taint struct {
 	e         *Engine
-	Source    func(v ssa.Value) bool                 // seeds
-	Sanitizer func(call *ssa.CallCommon, key string) bool // result of this call is clean even if args are tainted
-	NoEnter   func(fn *ssa.Function) bool            // do not propagate into this module function (treated as external)
+	Source    func(v ssa.Value) bool                       // seeds
+	Sanitizer func(call *ssa.CallCommon, key string) bool  // result of this call is clean even if args are tainted
+	NoEnter   func(fn *ssa.Function) bool                  // do not propagate into this module function (treated as external)
 	CleanAt   func(v ssa.Value, user ssa.Instruction) bool // value is considered clean at this use (validated region)
 
-	val    map[ssa.Value]bool
-	field  map[*types.Var]bool
-	why    map[ssa.Value]ssa.Value
-	whyFld map[*types.Var]ssa.Value
+	val           map[ssa.Value]bool
+	field         map[*types.Var]bool
+	why           map[ssa.Value]ssa.Value
+	whyFld        map[*types.Var]ssa.Value
 	methodsByName map[string][]*ssa.Function
-	changed bool
+	changed       bool
 }
 
 func NewTaint(e *Engine) *Taint {
